@@ -220,9 +220,6 @@ def _check_ranges(case):
             lab.append("proper_range")
         else:
             lab.append("degenerate_range")
-    # an independent draw per array: means and variances requested on the same range must not coincide
-    if (mlo, mhi) == (vlo, vhi) and mlo < mhi and p >= 3 and np.array_equal(np.asarray(m.means), np.asarray(m.variances)):
-        raise Violation("range_shared_draw", "means and variances are the same draw: %s" % (m.means.tolist(),))
     return lab + ["ranges"]
 
 
